@@ -1,7 +1,7 @@
 (* Property C08 - merge: every item exactly once, per-input order kept, ends iff all inputs ended. *)
 From Coq Require Import List Arith Bool.
 Import ListNotations.
-Require Import ScanFull InstsFull ObligMZ C08Merge C11Groups C03Merge C08Eager.
+Require Import ScanFull InstsFull ObligMZ C08Merge C11Groups C03Merge C08Eager Monitors.
 
 (* For every number of inputs, scripts, history and both strategies there is a split of each input's script into a consumed
    prefix [pre i] and the rest such that (i) the yields with provenance i are exactly the items of [pre i], in order;
@@ -40,3 +40,11 @@ Example C08_witness :
   let scs := [[{| fires := []; answer := AItem 1 |}; {| fires := []; answer := AEnd |}]; [{| fires := []; answer := AItem 2 |}; {| fires := []; answer := AEnd |}]] in
   results (tr _ (merge_world true scs [OPollFresh; OPollFresh; OPollFresh; OPollFresh; OPollFresh])) = [OSome (Some 0) [1]; OSome (Some 1) [2]; ONone].
 Proof. vm_compute. reflexivity. Qed.
+
+(* exactly once, on the observable trace alone: the values merge yielded are, in order, the item values its inputs answered (every item answered
+   is yielded, nothing else is, and each input's own order is kept); a corollary of C08_yields_at_once (eager_exact, Proofs/Monitors.v), whose
+   automaton is evaluated on every trace of the crate *)
+Theorem C08_yields_are_the_items_answered selective scs ops : let w := merge_world selective scs ops in
+  dropped _ w = false -> yvals (strip (tr _ w)) = avals (strip (tr _ w)).
+Proof. exact (merge_yields_are_items selective scs ops). Qed.
+Print Assumptions C08_yields_are_the_items_answered.
